@@ -400,7 +400,15 @@ CreateApply(s) ==
        ELSE /\ cat' = [cat EXCEPT ![n] = [k |-> "table", id |-> nextTid]]
             /\ nextTid' = nextTid + 1
             /\ Finish(s, [ok |-> TRUE, cnt |-> 1])
-            /\ UNCHANGED kf
+            \* ids are handed out when the catalog is changed, the log is written before: a CREATE of another name
+            \* that was logged earlier but is applied later gets the larger id, and replay (which numbers the tables
+            \* in log order) gives the two tables each other's ids (F36)
+            /\ LET PosCT(name) == CHOOSE i \in DOMAIN man : /\ man[i].o = "CT" /\ man[i].n = name
+                                                            /\ \A j \in DOMAIN man : j > i => ~(man[j].o = "CT" /\ man[j].n = name)
+                   overtaken == \E o \in DOMAIN ss : /\ o # s /\ ss[o].pc = "run" /\ ss[o].st.k = "ct"
+                                                     /\ ss[o].task.pc = "logged" /\ ss[o].st.t # n
+                                                     /\ PosCT(ss[o].st.t) < PosCT(n)
+               IN kf' = IF overtaken /\ "CreateIdOrder" \in Dev THEN kf \cup {"CreateIdOrder"} ELSE kf
     /\ UNCHANGED <<vmv, nextRs, nextDv, tlock, mlock, dirs, rsrows, dvrows, man, comp, vac, fail>>
 
 \* (ddl.drop.applied -> ddl.drop.pinned) pin, list the row-sets and DVs of the pinned snapshot
